@@ -122,7 +122,57 @@ def c11_jobs(tier):
     return [J('detect', 'H_C11_single', [], stubs=['single'])]
 
 
+def c08_jobs(tier):
+    jobs = [J('detect', 'H_C08_fast', [w], stubs=['fast', 'tq_summary'], timeout_ms=180000) for w in (2, 1, 0)]
+    jobs += [J('detect', 'H_C08_worker_step', [20, 12], stubs=['fast']), J('detect', 'H_C08_worker_step', [20, 15], stubs=['fast']),
+             J('detect', 'H_C08_worker_step', [50, 15], stubs=['fast'])]
+    if tier != 'quick':
+        jobs.append(J('detect', 'H_C08_fast', [2], stubs=['fast'], timeout_ms=600000))
+    return jobs
+
+
+def c09_jobs(tier):
+    jobs = []
+    for w in (2, 1, 0):
+        jobs.append(J('detect', 'H_C09_seq', [w], stubs=['fast', 'tq_summary']))
+        jobs.append(J('detect', 'H_C09_fast', [w], stubs=['fast', 'tq_summary']))
+    jobs.append(J('detect', 'H_C09_single', [], stubs=['single']))
+    return jobs
+
+
+def c10_jobs(tier):
+    jobs = []
+    for w in (2, 1, 0):
+        for fast in (0, 1):
+            jobs.append(J('detect', 'H_C10_chunked', [w, fast], stubs=['fast', 'tq_summary']))
+    return jobs
+
+
 PROPS = {
+    'C08': {
+        'jobs': c08_jobs,
+        'technique': 'solver-based bounded checking of the real code under one sequentialised schedule + per-iteration disjointness obligations with a symbolic job index (bridge argument for the other schedules); go/ssa -> symbolic execution -> z3, models replayed natively with real goroutines',
+        'bounds': {'quick': 'the three Fast workflows at real sizes vs their sequential counterparts over all per-sample result matrices (scripted rounds), under ONE schedule (goroutines run to completion one after another at WaitGroup.Wait, W=2); one worker iteration with SYMBOLIC job indices i != j at sizes 20x12, 20x15, 50x15: only column i and the atomic counters are written',
+                   'thorough': 'same + periodic workflow with the real ThresholdQ inside'},
+        'outside': 'other interleavings are NOT explored by the solver: schedule independence rests on the stated argument (identical workers; an iteration writes only column i - proven for symbolic i != j - and atomic counters; all writes precede Done in program order; the decision is a function of the final counters and columns; column contents do not depend on which job index a sample gets up to a permutation of rows, and the decision is permutation invariant by C12); the Go memory model below statement granularity; NumCPU workers > 2',
+        'assumptions': ['source Read is atomic w.r.t. other Reads (granted by the property)', 'Round15/Round12 summarised by scripted symbolic results; ThresholdQ summarised in the quick tier (C12)', 'sync.WaitGroup / sync.Mutex / channels / atomic.AddInt32 modelled by their documented semantics'],
+    },
+    'C09': {
+        'jobs': c09_jobs,
+        'technique': 'solver-based bounded checking of the real code: symbolic failure offset and kind, io.ReadFull by contract, goroutines sequentialised; WaitGroup counter at Wait must be zero (deadlock obligation); models replayed natively with real goroutines under a watchdog',
+        'bounds': {'quick': 'all seven workflow functions; failure offset SYMBOLIC over 0 .. s*size-1 (every byte offset: before the first sample, inside a sample, on a boundary, in the last sample) incl. partial reads; three error kinds; parallel variants under one schedule (W=2): Wait reachable with counter 0 on every path, (false, non-nil), jobs channel closed so parked workers are released',
+                   'thorough': 'same'},
+        'outside': 'wall-clock bounds (absence of blocking is shown, not a time limit); other interleavings (the deadlock obligation is schedule independent: every path through a worker iteration must perform exactly one Done)',
+        'assumptions': ['io.ReadFull contract (either fills the buffer and returns nil, or delivers the bytes before the failure point with a non-nil error)', 'failure kinds differ only in the error value returned'],
+    },
+    'C10': {
+        'jobs': c10_jobs,
+        'technique': 'solver-based bounded checking of the real code: symbolic maximum read size, Reader/ReadFull contracts over an abstract stream, buffer freshness tracked per read; models replayed natively behind a chunking reader',
+        'bounds': {'quick': 'six workflow functions at real sizes; every Read delivers at most a SYMBOLIC chunk of 1 .. size bytes; each judged sample must be a fully fresh block [k*size,(k+1)*size); verdict equals the full-read verdict; parallel reads happen under the run lock',
+                   'thorough': 'same'},
+        'outside': 'read-size histories that vary from Read to Read are covered only through the io.ReadFull contract (any history that eventually delivers the bytes); SingleDetect is covered by C11 (it uses io.ReadFull); interleaving of two workers partial reads is excluded by the lock (checked: no source read outside the lock)',
+        'assumptions': ['io.Reader contract: Read returns 1..len bytes (or an error), writes exactly that many bytes', 'io.ReadFull contract'],
+    },
     'C11': {
         'jobs': c11_jobs,
         'bounds': {'quick': 'SingleDetect with a SYMBOLIC requested length over 0 <= numByte < 2^31 (one query family, no smaller bound), four stream contents',
